@@ -21,6 +21,9 @@ MUTANTS = [
     ("C06", "exponent-key-fixed", P + "units.py", "/_units_conversion_dict[k][su_dst[k]])**sdim[k]", "/_units_conversion_dict[k][su_dst[k]])**sdim[\"time\"]", "C06.KEYS"),
     ("C06", "convert-without-dimguard", P + "units.py", "        if u.dim != v.units.dim :\n            raise ValueError(\"unit conversion must happen in the same dimension. Trying to convert", "        if False :\n            raise ValueError(\"unit conversion must happen in the same dimension. Trying to convert", "C06.DIMGUARD"),
     ("C06", "hour-is-360s", P + "units.py", "\"h\"   : 3600,", "\"h\"   : 360,", "C06.SI-TABLE"),
+    ("C15", "areneigh-wrong-extent", P + "rdgridspace.py", "            dy = min(dy, abs(self.h-dy))", "            dy = min(dy, abs(self.w-dy))", "C15.AXIS"),
+    ("C15", "areneigh-drops-z", P + "rdgridspace.py", "        return ((dx + dy + dz) == 1)", "        return ((dx + dy) == 1)", "C15.DISP"),
+    ("C15", "areneigh-no-wrap-test", P + "rdgridspace.py", "        if self._boundary_conditions[\"z\"] == \"periodical\" :\n            dz = min(dz, abs(self.d-dz))", "        dz = min(dz, abs(self.d-dz))", "C15.DISP"),
     # ---- C13
     ("C13", "state-index-cell-major", P + "rdsystem.py", "        return species_index * self.space.size() + cell_index", "        return cell_index * self.network.nspecies() + species_index", "C13.INDEX"),
     ("C13", "state-not-converted", P + "rdsystem.py", "        state[i] = (cell_species_density * cell_vol.get_at(i)).convert(units_system).value", "        state[i] = (cell_species_density * cell_vol.get_at(i)).value", "C13.TAG"),
